@@ -24,6 +24,13 @@ func concreteInt(v Value, what string) int64 {
 func concreteStr(v Value, what string) string {
 	s, ok := v.(string)
 	if !ok {
+		if ch, ok := v.(*Choice); ok {
+			var d []string
+			for _, a := range ch.alts {
+				d = append(d, fmt.Sprintf("%v", a.v))
+			}
+			unsupported("%s must be a concrete string, got choice of %v", what, d)
+		}
 		unsupported("%s must be a concrete string, got %T", what, v)
 	}
 	return s
@@ -95,7 +102,9 @@ func init() {
 			return BVVal{t: r.t}, true
 		},
 		"vAssume": func(in *Interp, st *State, fn *ssa.Function, args []Value, instr ssa.Instruction) (Value, bool) {
-			st.pc = And(st.pc, asBoolTerm(args[0]))
+			ac := in.applyFacts(asBoolTerm(args[0]))
+			st.pc = And(st.pc, ac)
+			in.addFact(ac)
 			in.drops++
 			return nil, st.pc != tFalse
 		},
@@ -328,11 +337,11 @@ func putUint(in *Interp, st *State, bv Value, v Value, n int, instr ssa.Instruct
 	if b.obj.pre && in.frozen && !in.monitorOff {
 		in.oblige("frame", "PutUint into pre-existing object "+b.obj.label, st.abs(), in.posOf(instr))
 	}
-	arr := st.heap[b.obj].(*Agg)
+	arr := sliceArr(st.heap, b)
 	out := make([]Value, len(arr.elems))
 	copy(out, arr.elems)
 	copy(out[b.off:b.off+n], cells)
-	st.heap[b.obj] = &Agg{elems: out}
+	sliceSetArr(st.heap, b, &Agg{elems: out})
 	return nil, true
 }
 
@@ -346,7 +355,7 @@ func getUint(in *Interp, st *State, bv Value, n int, instr ssa.Instruction) (Val
 		if b.len < n {
 			return nil, false
 		}
-		arr := st.heap[b.obj].(*Agg)
+		arr := sliceArr(st.heap, b)
 		cells := arr.elems[b.off : b.off+n]
 		return assembleUint(cells, n), true
 	}, &bad)
